@@ -555,6 +555,40 @@ Proof.
       rewrite Pos.eqb_refl. destruct (Pos.eqb_spec ra rb); [congruence|auto].
 Qed.
 
+(* ------------------------------------------------------------------ computations that only read the store *)
+
+Definition readonly {A} (m : M A) : Prop := forall s a s', m s = Ok (a, s') -> s' = s.
+
+Lemma ro_ret {A} (a : A) : readonly (ret a).
+Proof. intros s x s' H. injection H as _ <-. reflexivity. Qed.
+
+Lemma ro_fail {A} k sp : readonly (@fail A k sp).
+Proof. intros s x s' H. discriminate. Qed.
+
+Lemma ro_oof {A} : readonly (@out_of_fuel A).
+Proof. intros s x s' H. discriminate. Qed.
+
+Lemma ro_bind {A B} (m : M A) (k : A -> M B) : readonly m -> (forall a, readonly (k a)) -> readonly (bind m k).
+Proof.
+  intros Hm Hk s b s' H. apply bind_inv in H as (a & s1 & H1 & H2).
+  apply Hm in H1. subst s1. exact (Hk a _ _ _ H2).
+Qed.
+
+Lemma ro_find a : readonly (find a).
+Proof. intros s x s' H. apply find_inv in H as [-> _]. reflexivity. Qed.
+
+Lemma ro_find_type a : readonly (find_type a).
+Proof. intros s x s' H. apply find_type_inv in H as [-> _]. reflexivity. Qed.
+
+Lemma ro_mapM {A B} (f : A -> M B) l : (forall x, readonly (f x)) -> readonly (mapM f l).
+Proof.
+  intros H. induction l; cbn [mapM]; [apply ro_ret|].
+  apply ro_bind; [apply H|intros y]. apply ro_bind; [assumption|intros ys; apply ro_ret].
+Qed.
+
+Lemma readonly_pres {A} (m : M A) : readonly m -> pres m.
+Proof. intros H s a s' W E. apply H in E. subst s'. split; [assumption|apply ext_refl]. Qed.
+
 (* ------------------------------------------------------------------ the graph-level functions *)
 
 Record gpres (R : grec) : Prop := mkGP {
@@ -564,8 +598,27 @@ Record gpres (R : grec) : Prop := mkGP {
   gp_div : forall sp a b, pres (g_div R sp a b);
   gp_divres : forall sp a b, pres (g_divres R sp a b);
   gp_copy : forall a m, framed (g_copy R a m);
-  gp_neg : forall sp a, pres (g_neg R sp a)
+  gp_neg : forall sp a, pres (g_neg R sp a);
+  gp_inside : forall sp u todo seen, readonly (g_inside R sp u todo seen)
 }.
+
+(* fn check_not_inside only reads the store *)
+Lemma ro_inside_body R (P : gpres R) sp u todo seen : readonly (inside_body R sp u todo seen).
+Proof.
+  unfold inside_body. destruct todo as [|ty todo]; [apply ro_ret|].
+  apply ro_bind; [apply ro_find|intros r].
+  destruct (existsb (Pos.eqb r) seen); [apply (gp_inside R P)|].
+  apply ro_bind; [apply ro_find_type|intros h].
+  destruct h; try apply (gp_inside R P).
+  apply ro_bind; [apply ro_mapM; intros; apply ro_find|intros reps].
+  match goal with |- readonly (if ?c then _ else _) => destruct c end; [apply ro_fail|apply (gp_inside R P)].
+Qed.
+
+Lemma ro_check_not_inside R (P : gpres R) sp u ty : readonly (check_not_inside R sp u ty).
+Proof. unfold check_not_inside. apply ro_bind; [apply ro_find|intros r; apply (gp_inside R P)]. Qed.
+
+Lemma pres_check_not_inside R (P : gpres R) sp u ty : pres (check_not_inside R sp u ty).
+Proof. apply readonly_pres, ro_check_not_inside, P. Qed.
 
 Lemma pres_iter2 (f : tyid -> tyid -> M unit) : (forall x y, pres (f x y)) -> forall xs ys, pres (iter2 f xs ys).
 Proof.
@@ -614,6 +667,7 @@ Ltac pstep R P :=
   | |- pres (g_divres R _ _ _) => apply (gp_divres R P)
   | |- pres (g_copy R _ _) => apply framed_pres, (gp_copy R P)
   | |- pres (g_neg R _ _) => apply (gp_neg R P)
+  | |- pres (check_not_inside R _ _ _) => apply (pres_check_not_inside R P)
   | |- pres (unify R _ _ _) => unfold unify
   | |- pres (unify_option R _ _ _) => unfold unify_option
   | |- pres (copy R _) => unfold copy
@@ -714,17 +768,19 @@ Proof.
     assert (M : wf s5 /\ ext s s5 /\ shapes_agree s5 ra rb /\ unify_compat ta tb).
     { set (sn := (rb, ra) :: (ra, rb) :: seen) in *.
       assert (CaseU1 : forall t, head s rb = Some HUnknown -> head s ra = Some t ->
-                (set_type rb t ;;; ret sn) s = Ok (seen', s5) ->
+                (check_not_inside R sp rb ra ;;; set_type rb t ;;; ret sn) s = Ok (seen', s5) ->
                 wf s5 /\ ext s s5 /\ shapes_agree s5 ra rb).
-      { intros t Hb Ha Hm. apply bind_inv in Hm as (u & s6 & Hs & Hr). injection Hr as _ <-.
+      { intros t Hb Ha Hm. apply bind_inv in Hm as (u0 & s0 & Hc & Hm). apply (ro_check_not_inside R P) in Hc. subst s0.
+        apply bind_inv in Hm as (u & s6 & Hs & Hr). injection Hr as _ <-.
         destruct (set_type_spec _ _ _ _ _ W Hb Hs) as (W' & E' & _ & Hd). split; [assumption|]. split; [assumption|].
         intros h1 h2 X1 X2. rewrite Hd, Rra, Rrb in X1. rewrite Hd, Rrb in X2. rewrite Pos.eqb_refl in X2.
         destruct (Pos.eqb_spec ra rb); [contradiction|]. rewrite Ha in X1. injection X1 as <-. injection X2 as <-.
         apply same_shape_refl. }
       assert (CaseU2 : forall t, head s ra = Some HUnknown -> head s rb = Some t ->
-                (set_type ra t ;;; ret sn) s = Ok (seen', s5) ->
+                (check_not_inside R sp ra rb ;;; set_type ra t ;;; ret sn) s = Ok (seen', s5) ->
                 wf s5 /\ ext s s5 /\ shapes_agree s5 ra rb).
-      { intros t Ha Hb Hm. apply bind_inv in Hm as (u & s6 & Hs & Hr). injection Hr as _ <-.
+      { intros t Ha Hb Hm. apply bind_inv in Hm as (u0 & s0 & Hc & Hm). apply (ro_check_not_inside R P) in Hc. subst s0.
+        apply bind_inv in Hm as (u & s6 & Hs & Hr). injection Hr as _ <-.
         destruct (set_type_spec _ _ _ _ _ W Ha Hs) as (W' & E' & _ & Hd). split; [assumption|]. split; [assumption|].
         intros h1 h2 X1 X2. rewrite Hd, Rra in X1. rewrite Hd, Rrb, Rra in X2. rewrite Pos.eqb_refl in X1.
         destruct (Pos.eqb_spec rb ra); [congruence|]. rewrite Hb in X2. injection X1 as <-. injection X2 as <-.
@@ -989,8 +1045,8 @@ Qed.
 Theorem gfix_pres : forall g, gpres (gfix g).
 Proof.
   induction g as [|g IH]; cbn [gfix].
-  - constructor; intros; try apply pres_oof. intros s a' s' _ H. discriminate.
-  - constructor; cbn [gstep g_unify g_check g_arith g_div g_divres g_copy g_neg]; intros.
+  - constructor; intros; try apply pres_oof; try apply ro_oof. intros s a' s' _ H. discriminate.
+  - constructor; cbn [gstep g_unify g_check g_arith g_div g_divres g_copy g_neg g_inside]; intros.
     + intros s r s' W H. destruct (unify_body_spec _ IH _ _ _ _ _ _ _ W H) as (X & Y & _). auto.
     + now apply pres_check_body.
     + now apply pres_arith_body.
@@ -998,6 +1054,7 @@ Proof.
     + now apply pres_divres_body.
     + now apply framed_copy_body.
     + now apply pres_neg_body.
+    + now apply ro_inside_body.
 Qed.
 
 (* fn copy: a fresh class whose head has the shape (and, for function types, the purity) of the original's;
@@ -1288,6 +1345,7 @@ Ltac prs1 :=
   | P : gpres ?G |- pres (g_divres ?G _ _ _) => apply (gp_divres G P)
   | P : gpres ?G |- pres (g_copy ?G _ _) => apply framed_pres, (gp_copy G P)
   | P : gpres ?G |- pres (g_neg ?G _ _) => apply (gp_neg G P)
+  | P : gpres ?G |- pres (check_not_inside ?G _ _ _) => apply (pres_check_not_inside G P)
   | P : apres ?R |- pres (r_expr ?R _ _) => apply (ap_expr R P)
   | P : apres ?R |- pres (r_stmt ?R _ _) => apply (ap_stmt R P)
   | P : apres ?R |- pres (r_type ?R _ _) => apply (ap_type R P)
